@@ -1449,6 +1449,11 @@ Proof.
   rewrite footer_num_rows. unfold laid_groups. cbv zeta. now rewrite lay_groups_rows.
 Qed.
 
+(* The lemmas from here on are about the decoder [verify ext] for an arbitrary external
+   decompressor [ext] (SpecDecoder.decompress): nothing below depends on what [ext] answers. *)
+Section WithExt.
+Variable ext : ext_fn.
+
 (** * The specification decoder's own page loop finds the pages [walk_pages] finds *)
 
 Definition page_matches (p : page) (hp : hpage) : Prop :=
@@ -1458,7 +1463,7 @@ Definition page_matches (p : page) (hp : hpage) : Prop :=
   N.of_nat (p_nvalues p) = header_nvalues (h_header hp).
 
 Lemma decode_page_skel rest lf codec dict off p :
-  decode_page rest lf codec dict off = Some p ->
+  decode_page ext rest lf codec dict off = Some p ->
   exists h hlen after b,
     decode_header rest = Some (h, hlen, after) /\ sub after 0 (nat_of_field 3 h) = Some b /\
     page_matches p {| h_offset := off; h_hlen := hlen; h_comp := nat_of_field 3 h; h_header := h |}.
@@ -1470,13 +1475,13 @@ Proof.
   unfold page_matches, header_nvalues. cbn [h_offset h_hlen h_comp h_header].
   destruct (zdef (get_int 1 h) (-1) =? 2)%Z eqn:E2.
   - destruct (get 7 h) as [dh|]; [|discriminate].
-    destruct (decompress codec body); [|discriminate].
+    destruct (decompress ext codec body); [|discriminate].
     destruct (decode_values _ _ _ _ _ _); [|discriminate].
     inversion H. subst p. cbn [p_offset p_hlen p_comp p_uncomp p_type p_nvalues]. repeat split; try reflexivity. rewrite nat_of_n_of_field. lia.
   - destruct (zdef (get_int 1 h) (-1) =? 0)%Z eqn:E0.
     + assert (E3 : (zdef (get_int 1 h) (-1) =? 3)%Z = false) by lia. rewrite E3.
       destruct (get 5 h) as [dh|]; [|discriminate].
-      destruct (decompress codec body); [|discriminate].
+      destruct (decompress ext codec body); [|discriminate].
       destruct (levels_v1 _ _ _) as [[rep d1]|]; [|discriminate].
       destruct (levels_v1 _ _ _) as [[def d2]|]; [|discriminate].
       destruct (decode_values _ _ _ _ _ _); [|discriminate].
@@ -1485,17 +1490,17 @@ Proof.
       destruct (get 8 h) as [dh|]; [|discriminate].
       destruct (levels_v2 _ _ _ _) as [[rep b1]|]; [|discriminate].
       destruct (levels_v2 _ _ _ _) as [[def b2]|]; [|discriminate].
-      destruct (if match get_bool 7 dh with Some b => b | None => true end then decompress codec b2 else Some b2); [|discriminate].
+      destruct (if match get_bool 7 dh with Some b => b | None => true end then decompress ext codec b2 else Some b2); [|discriminate].
       destruct (decode_values _ _ _ _ _ _); [|discriminate].
       inversion H. subst p. cbn [p_offset p_hlen p_comp p_uncomp p_type p_nvalues]. repeat split; try reflexivity. rewrite nat_of_n_of_field. lia.
 Qed.
 
 Lemma decode_pages_cons f b0 r0 lf codec dict off :
-  decode_pages (S f) (b0 :: r0) lf codec dict off =
-  match decode_page (b0 :: r0) lf codec dict off with
+  decode_pages ext (S f) (b0 :: r0) lf codec dict off =
+  match decode_page ext (b0 :: r0) lf codec dict off with
   | None => None
   | Some p =>
-      match decode_pages f (skipn (p_hlen p + p_comp p) (b0 :: r0)) lf codec
+      match decode_pages ext f (skipn (p_hlen p + p_comp p) (b0 :: r0)) lf codec
               (if (p_type p =? 2)%Z then p_values p else dict) (off + N.of_nat (p_hlen p + p_comp p)) with
       | Some ps => Some (p :: ps)
       | None => None
@@ -1520,19 +1525,19 @@ Lemma walk_pages_cons f b0 r0 off :
 Proof. reflexivity. Qed.
 
 Lemma decode_pages_walk : forall fuel rest lf codec dict off ps,
-  decode_pages fuel rest lf codec dict off = Some ps ->
+  decode_pages ext fuel rest lf codec dict off = Some ps ->
   exists hs, walk_pages fuel rest off = Some hs /\ Forall2 page_matches ps hs.
 Proof.
   induction fuel as [|f IH]; intros rest lf codec dict off ps H; [discriminate|].
   destruct rest as [|b0 r0].
   - inversion H. exists []. split; [reflexivity|constructor].
   - rewrite decode_pages_cons in H. rewrite walk_pages_cons.
-    destruct (decode_page (b0 :: r0) lf codec dict off) as [p|] eqn:Ep; [|discriminate].
+    destruct (decode_page ext (b0 :: r0) lf codec dict off) as [p|] eqn:Ep; [|discriminate].
     destruct (decode_page_skel _ _ _ _ _ _ Ep) as (h & hlen & after & body & Hh & Hs & Hm).
     rewrite Hh, Hs.
     destruct Hm as (Mo & Ml & Mc & Mu & Mt & Mn). cbn [h_offset h_hlen h_comp h_header] in *.
     rewrite Ml, Mc in H.
-    destruct (decode_pages f _ lf codec _ _) as [ps'|] eqn:Eps; [|discriminate].
+    destruct (decode_pages ext f _ lf codec _ _) as [ps'|] eqn:Eps; [|discriminate].
     inversion H. subst ps.
     destruct (IH _ _ _ _ _ _ Eps) as (hs & Hw & Hf). rewrite Hw.
     eexists. split; [reflexivity|]. constructor; [|exact Hf].
@@ -1575,24 +1580,24 @@ Definition chunk_decoded (file : fbytes) (cc : tval) (ch : chunk) : Prop :=
   exists md data,
     get 3 cc = Some md /\ c_meta ch = md /\ c_chunk ch = cc /\ c_start ch = chunk_start md /\
     fsub file (chunk_start md) (nat_of_field 7 md) = Some data /\
-    decode_pages (S (nat_of_field 7 md)) data (c_leaf ch) (zdef (get_int 4 md) 0) [] (chunk_start md) = Some (c_pages ch).
+    decode_pages ext (S (nat_of_field 7 md)) data (c_leaf ch) (zdef (get_int 4 md) 0) [] (chunk_start md) = Some (c_pages ch).
 
-Lemma decode_chunk_inv file lf cc ch : decode_chunk file lf cc = Some ch -> chunk_decoded file cc ch.
+Lemma decode_chunk_inv file lf cc ch : decode_chunk ext file lf cc = Some ch -> chunk_decoded file cc ch.
 Proof.
   unfold decode_chunk. intros H.
   destruct (get 3 cc) as [md|] eqn:Eg; [|discriminate].
   destruct (fsub file (chunk_start md) (nat_of_field 7 md)) as [data|] eqn:Ef; [|discriminate].
-  destruct (decode_pages _ _ _ _ _ _) as [ps|] eqn:Ep; [|discriminate].
+  destruct (decode_pages ext _ _ _ _ _ _) as [ps|] eqn:Ep; [|discriminate].
   inversion H. subst ch. exists md, data. cbn [c_meta c_chunk c_start c_pages c_leaf]. repeat split; try reflexivity; assumption.
 Qed.
 
 Lemma decode_chunks_inv file : forall ls ccs chs,
-  decode_chunks file ls ccs = Some chs -> Forall2 (chunk_decoded file) ccs chs.
+  decode_chunks ext file ls ccs = Some chs -> Forall2 (chunk_decoded file) ccs chs.
 Proof.
   induction ls as [|lf ls IH]; intros [|cc ccs] chs H; cbn [decode_chunks] in H; try discriminate.
   - inversion H. constructor.
-  - destruct (decode_chunk file lf cc) as [ch|] eqn:E1; [|discriminate].
-    destruct (decode_chunks file ls ccs) as [chs'|] eqn:E2; [|discriminate].
+  - destruct (decode_chunk ext file lf cc) as [ch|] eqn:E1; [|discriminate].
+    destruct (decode_chunks ext file ls ccs) as [chs'|] eqn:E2; [|discriminate].
     inversion H. subst chs. constructor; [now apply decode_chunk_inv in E1|now apply IH].
 Qed.
 
@@ -1600,13 +1605,13 @@ Definition group_decoded (file : fbytes) (gt : tval) (grp : row_group) : Prop :=
   g_meta grp = gt /\ exists ccs, get_list 1 gt = Some ccs /\ Forall2 (chunk_decoded file) ccs (g_chunks grp).
 
 Lemma decode_groups_inv file ls : forall gts grps,
-  decode_groups file ls gts = Some grps -> Forall2 (group_decoded file) gts grps.
+  decode_groups ext file ls gts = Some grps -> Forall2 (group_decoded file) gts grps.
 Proof.
   induction gts as [|gt gts IH]; intros grps H; cbn [decode_groups] in H.
   - inversion H. constructor.
   - destruct (get_list 1 gt) as [ccs|] eqn:E0; [|discriminate].
-    destruct (decode_chunks file ls ccs) as [chs|] eqn:E1; [|discriminate].
-    destruct (decode_groups file ls gts) as [rest|] eqn:E2; [|discriminate].
+    destruct (decode_chunks ext file ls ccs) as [chs|] eqn:E1; [|discriminate].
+    destruct (decode_groups ext file ls gts) as [rest|] eqn:E2; [|discriminate].
     inversion H. subst grps. constructor; [|now apply IH].
     split; [reflexivity|]. exists ccs. split; [exact E0|]. cbn [g_chunks]. now apply decode_chunks_inv in E1.
 Qed.
@@ -1619,7 +1624,8 @@ Open Scope string_scope.
 (* the checks of [verify] that depend on the decoded bodies (levels, values, checksums) *)
 Definition body_codes : list String.string :=
   ["uncompressed_page_size"; "page_crc"; "encodings_list"; "v2_num_rows"; "v2_num_nulls"; "v2_page_starts_mid_row"; "level_range";
-   "column_type"; "row_group_num_rows"; "page_location_first_row_index"; "encoding_stats"; "indexed_page_starts_mid_row"].
+   "column_type"; "row_group_num_rows"; "page_location_first_row_index"; "encoding_stats"; "indexed_page_starts_mid_row";
+   "sorting_column_idx"; "sorting_nulls_placement"].
 
 Lemma in_check b code name : In code (check b name) -> b = false /\ code = name.
 Proof. unfold check. destruct b; cbn; intros H; [tauto|]. destruct H as [H|[]]. auto. Qed.
@@ -1791,18 +1797,33 @@ Proof.
     apply (Hchunk j ch Hj). apply in_or_app. now right.
 Qed.
 
+(* the sorting declarations of the row groups (opaque to the layout model: gi_sorting) can
+   only raise their own two complaints, which are about the decoded contents *)
+Lemma check_sorting_codes (pf : pfile) code : In code (check_sorting pf) -> In code body_codes.
+Proof.
+  unfold check_sorting. intros H. apply in_concat in H. destruct H as (l & Hl & Hin).
+  apply in_map_iff in Hl. destruct Hl as (g & <- & _). unfold check_sorting_group in Hin.
+  destruct (get_list 4 (g_meta g)) as [scs|]; [|destruct Hin].
+  apply in_app_or in Hin. destruct Hin as [Hin|Hin].
+  - apply in_check in Hin. destruct Hin as [_ ->]. cbn [In body_codes]. auto 16.
+  - destruct scs as [|sc scs']; [destruct Hin|].
+    destruct (nth_error (g_chunks g) (nat_of_field 1 sc)) as [c|]; [|destruct Hin].
+    destruct (l_maxr (c_leaf c) =? 0)%nat; [|destruct Hin].
+    apply in_check in Hin. destruct Hin as [_ ->]. cbn [In body_codes]. auto 16.
+Qed.
+
 Theorem layout_verify_only_body_codes fi f codes :
-  file_ok fi = true -> verify (layout_bytes fi) = Some (f, codes) ->
+  file_ok fi = true -> verify ext (layout_bytes fi) = Some (f, codes) ->
   forall code, In code codes -> In code body_codes.
 Proof.
   intros Hok Hv code Hin. unfold verify in Hv. cbv zeta in Hv.
   set (file := mk_fbytes (layout_bytes fi)) in *.
-  destruct (parse file) as [pf|] eqn:Ep; [|discriminate]. inversion Hv. subst f codes. clear Hv.
+  destruct (parse ext file) as [pf|] eqn:Ep; [|discriminate]. inversion Hv. subst f codes. clear Hv.
   unfold parse in Ep. subst file. rewrite (layout_footer_found fi Hok) in Ep.
   destruct (get_list 2 (footer_tree fi)) as [schema|]; [|discriminate].
   destruct (leaves_of schema) as [ls|]; [|discriminate].
   rewrite footer_row_groups in Ep.
-  destruct (decode_groups _ ls _) as [groups|] eqn:Eg; [|discriminate].
+  destruct (decode_groups ext _ ls _) as [groups|] eqn:Eg; [|discriminate].
   inversion Ep. subst pf. clear Ep.
   apply decode_groups_inv in Eg.
   destruct (layout_file_rows fi) as (gts & Hgts & Hlen & Hrows).
@@ -1822,7 +1843,8 @@ Proof.
     rewrite Hm, Hrows, N.eqb_refl in Hin. cbn [check] in Hin. rewrite app_nil_r in Hin.
     apply in_concat_map in Hin. destruct Hin as (i & grp & Hi & Hc).
     apply (Hgroup i grp Hi). apply in_or_app. now left.
-  - unfold check_indexes in Hin. cbn [f_groups] in Hin.
+  - apply in_app_or in Hin. destruct Hin as [Hin|Hin]; [|exact (check_sorting_codes _ _ Hin)].
+    unfold check_indexes in Hin. cbn [f_groups] in Hin.
     apply in_concat_map in Hin. destruct Hin as (i & grp & Hi & Hc).
     apply (Hgroup i grp Hi). apply in_or_app. right. exact Hc.
 Qed.
@@ -1830,10 +1852,10 @@ Qed.
 (** the verdict on a laid out file is empty as soon as the decoder accepts the
     page contents (decodes every body and raises none of the content complaints) *)
 Definition bodies_accepted (fi : file_in) : Prop :=
-  exists f codes, verify (layout_bytes fi) = Some (f, codes) /\ forall c, In c codes -> ~ In c body_codes.
+  exists f codes, verify ext (layout_bytes fi) = Some (f, codes) /\ forall c, In c codes -> ~ In c body_codes.
 
 Theorem layout_verify_modulo_bodies fi :
-  file_ok fi = true -> bodies_accepted fi -> exists f, verify (layout_bytes fi) = Some (f, []).
+  file_ok fi = true -> bodies_accepted fi -> exists f, verify ext (layout_bytes fi) = Some (f, []).
 Proof.
   intros Hok (f & codes & Hv & Hb). exists f. rewrite Hv. do 2 f_equal.
   destruct codes as [|c cs]; [reflexivity|]. exfalso.
@@ -1841,3 +1863,5 @@ Proof.
 Qed.
 
 Close Scope string_scope.
+
+End WithExt.
